@@ -39,6 +39,7 @@ def strategy():
         "operand": st.booleans(),
         "dashdash": st.booleans(),
         "noops": st.lists(st.tuples(st.integers(0, 8), st.sampled_from(NOOPS)), max_size=3),
+        "inner": st.lists(st.tuples(st.integers(0, 5), st.integers(0, 6), st.sampled_from(["q", "s", "qs"])), max_size=2),
         "seed": st.integers(0, 10**6),
     })
 
@@ -195,14 +196,26 @@ def make_eval(exe):
                 units.insert(min(pos, len(units)), [nz])
             toks3 = [t for u in units for t in u]
             o3 = run_once(exe, case["name"], [None, None, None], toks3 + tail, case["sep"], operand, dec, td, "r3", plain, z)
-        if o1["timeout"] or o2["timeout"] or o3["timeout"]:
+            # the ignored letters -q / -s INSIDE short-option clusters (e.g. -dk9 -> -dqk9, -d -> -qd)
+            toks4 = list(toks)
+            shorts = [i for i, t_ in enumerate(toks4) if t_.startswith("-") and not t_.startswith("--") and len(t_) >= 2
+                      and t_[1] != "n" and (i == 0 or toks4[i - 1] != "-n")]
+            for which, pos, letters in case.get("inner", []):
+                if shorts:
+                    i = shorts[which % len(shorts)]
+                    body = toks4[i][1:]
+                    p_ = pos % (len(body) + 1)
+                    toks4[i] = "-" + body[:p_] + letters + body[p_:]
+            o4 = run_once(exe, case["name"], [None, None, None], toks4 + tail, case["sep"], operand, dec, td, "r4", plain, z)
+        if o1["timeout"] or o2["timeout"] or o3["timeout"] or o4["timeout"]:
             stats.inconclusive += 1
             return None
         bad = check_model(o1, dec, out, level, keep, test, operand, plain, z)
         if bad:
             bad = "model: " + bad
         else:
-            for nm, o in (("environment tokens moved to the command line", o2), ("no-op options inserted", o3)):
+            for nm, o in (("environment tokens moved to the command line", o2), ("no-op options inserted", o3),
+                          ("ignored letters q/s inserted inside option clusters: %r" % toks4, o4)):
                 if (o["rc"], o["out"], o["files"]) != (o1["rc"], o1["out"], o1["files"]):
                     bad = "metamorphic (%s): rc %s vs %s, stdout %d vs %d bytes, files %r vs %r" % (
                         nm, o["rc"], o1["rc"], len(o["out"]), len(o1["out"]), sorted(o["files"]), sorted(o1["files"]))
@@ -247,7 +260,7 @@ def replay_file(path):
 def run(tier, seed):
     t0 = time.time()
     exe = core.build("rel")
-    n = 1800 if tier == "quick" else 60000
+    n = 1400 if tier == "quick" else 20000
     stats, fails = core.hyp_search(strategy, make_eval(exe), n, seed)
     oc = core.conclude(PID, fails, replay_case)
     core.write_evidence(PID, tier, seed, "exploration", stats, RULE, time.time() - t0,
